@@ -26,10 +26,10 @@ import zlib
 
 from . import common
 from .c16_gen import (PYWS, gen_range_header, gen_len, gen_request, gen_elements_value,
-                      enum_small_headers, content_bytes, httpdate)
+                      enum_small_headers, enum_decision_table, content_bytes, httpdate)
 
 PROPERTY = 'C16'
-LEAN_TARGETS = ['CpProofs.C16', 'CpProofs.C16Cond', 'drv_c16']
+LEAN_TARGETS = ['CpProofs.C16', 'CpProofs.C16Cond', 'CpProofs.C16Elems', 'drv_c16']
 DRIVER = 'drv_c16'
 THEOREMS = ['CpProofs.C16.' + t for t in (
     # ranges: parsing
@@ -44,6 +44,9 @@ THEOREMS = ['CpProofs.C16.' + t for t in (
     'respond_file_table', 'respond_gen_table', 'respond_gen_non2xx', 'file_status_table',
     'file_conditional_iff_dictated', 'file_not_dictated_full', 'file_304_getHead', 'file_412_reason',
     'respond_304_no_body', 'respond_unconditional_file', 'head_no_body',
+    'file_range_end_to_end', 'file_http10_whole_entity', 'gen_conditional_iff_dictated', 'gen_not_dictated_full',
+    # list-valued validators
+    'elements_tag_list', 'listed_etag_matches', 'space_codes_not_quote',
     # obligations over the regenerated tables
     'space_codes_not_digit_dash_comma_eq', 'lower_table_sources', 'entity_headers_stripped_304',
     'validator_headers_kept_304', 'content_range_kept_only_416', 'not_modified_methods',
@@ -1091,7 +1094,10 @@ def run(ctx):
             check_unit(ctx, [(h, n) for n in (0, 1, 2, 3, 5) for h in hs[::3]])
         # E: element lists
         check_elements(ctx, [gen_elements_value(rng) for _ in range(ctx.budget(600, 5000))])
-        # Q: requests
+        # Q: requests; first the systematic validator table (every tier), then generated ones
+        table = enum_decision_table()
+        check_requests(ctx, table if not ctx.quick() else table[ctx.seed % 2::2])
+        ctx.extra['validator_table_requests'] = len(table) if not ctx.quick() else len(table[ctx.seed % 2::2])
         check_requests(ctx, [gen_request(rng) for _ in range(ctx.budget(2600, 6000))])
         if not ctx.quick():
             jobs = []
